@@ -106,8 +106,30 @@ pub trait NodeMut {
     ) -> error::Result<XmlNode>;
 
     fn replace_child(&self, new_child: XmlNode, old_child: &XmlNode) -> error::Result<XmlNode> {
-        self.insert_before(new_child, Some(old_child))?;
-        self.remove_child(old_child)
+        if new_child.id() == old_child.id()
+            && new_child.owner_document() == old_child.owner_document()
+        {
+            // replacing a child by itself changes nothing
+            self.insert_before(new_child, Some(old_child))?;
+            return Ok(old_child.clone());
+        }
+
+        if matches!(old_child, XmlNode::DocumentType(_)) {
+            self.insert_before(new_child, Some(old_child))?;
+            return self.remove_child(old_child);
+        }
+
+        // The old child leaves first: its place may be the only one the new child can take
+        // (the document element). It comes back if the new child is refused.
+        let next = old_child.next_sibling();
+        let old = self.remove_child(old_child)?;
+        match self.insert_before(new_child, next.as_ref()) {
+            Ok(_) => Ok(old),
+            Err(e) => {
+                self.insert_before(old, next.as_ref())?;
+                Err(e)
+            }
+        }
     }
 
     fn remove_child(&self, old_child: &XmlNode) -> error::Result<XmlNode>;
